@@ -6,7 +6,8 @@ document trees x request-path spellings, against `Fs.handle` over the executable
 model in Lean; the same with ONE long-lived handler while the tree is edited between rounds of
 requests (`sequence`: the model keeps no state, every answer is compared with `Fs.handle` on the
 tree as it is on disk at that moment; `wear`: the tree stays, the handler answers hundreds of requests of every
-kind in a process that may open only a few dozen more files, and must answer afterwards as before); `canonical_path` against `Fs.Canon.canonSegs`; the port
+kind in a process that may open only a few dozen more files, and must answer afterwards as before; `neighbours`: SEVERAL handlers
+of one process whose roots are different directories of one tree, linked to each other, asked in turn - each judged against ITS root); `canonical_path` against `Fs.Canon.canonSegs`; the port
 of `posixpath._joinrealpath` against the kernel.
 """
 from __future__ import annotations
@@ -40,7 +41,7 @@ ASSUMPTIONS = [
     "the executable symlink tree (port of posixpath._joinrealpath of Python 3.12.1, kernel-style walk, ELOOP probe, ENAMETOOLONG) that instantiates the OS for the driver is validated only by this differential run against the kernel",
     "file contents are identified by a per-file sentinel; MIME type selection and the exact text of directory listings beyond the set of listed names are compared but not covered by theorems",
     "PermissionError branches cannot be provoked (the harness runs as root); they are modelled (Fail.denied) but not exercised",
-    "the handler keeps no state between requests: the theorems are about one request on one OS state; that an answer depends on nothing but the tree at that moment and the request (no cache of locations, contents or misses) is tested only by the `sequence` family, and only for edits made between requests, not during one; that a request leaves nothing behind in the PROCESS (descriptors) only by the `wear` family (a few hundred requests under a lowered RLIMIT_NOFILE)",
+    "the handler keeps no state between requests: the theorems are about one request on one OS state; that an answer depends on nothing but the tree at that moment and the request (no cache of locations, contents or misses) is tested only by the `sequence` family, and only for edits made between requests, not during one; that a request leaves nothing behind in the PROCESS (descriptors) only by the `wear` family (a few hundred requests under a lowered RLIMIT_NOFILE); that the handlers of one process (several [[locations]]) share nothing that moves a root's boundary only by the `neighbours` family (the Lean model covers the handler on `root`, the others are judged by the oracle alone)",
 ]
 LEVEL_TEXT = (
     "partial: proved for every OS behaviour, configuration and request path over the Lean model — a 20 response carries the content "
@@ -314,9 +315,10 @@ def _denotes(upath: str, rel_inside: str):
     return "percent-encoded" if upath == "/" + "/".join(T.quote_all(n) for n in names) or upath == _own_requests(rel_inside)[2] else "partly percent-encoded"
 
 
-def _plain_inside_files(ents):
-    """regular files inside the root reached without any symlink (their parents are real directories)"""
-    return [e for e in ents if e[0] == "f" and e[1].startswith("root/")]
+def _plain_inside_files(ents, rootrel="root"):
+    """regular files inside the root reached without any symlink (their parents are real directories); the document
+    root is the directory `rootrel` of the tree ("" = the directory that holds the whole tree)"""
+    return [e for e in ents if e[0] == "f" and e[1].startswith(rootrel + "/" if rootrel else "")]
 
 
 def _requests(rng, tree, n, own_p=0.3):
@@ -367,11 +369,13 @@ def _link_requests(rng, tree, links=None, k=4):
     return out
 
 
-def _judge(paths, res, ents, outside, mx, when="", safety=True, complete=True, lvl0="handler"):
-    """the property, evaluated on the answers to `paths` against the tree `ents` the requests met"""
+def _judge(paths, res, ents, outside, mx, when="", safety=True, complete=True, lvl0="handler", rootrel="root"):
+    """the property, evaluated on the answers to `paths` against the tree `ents` the requests met (`rootrel`: which
+    directory of the tree is the document root of the handler that answered)"""
     outside = set(outside)
     files = {e[2]: e for e in ents if e[0] == "f"}
-    plain = [e for e in _plain_inside_files(ents) if e[3] and e[4] <= mx]
+    plain = [e for e in _plain_inside_files(ents, rootrel) if e[3] and e[4] <= mx]
+    cut = len(rootrel) + 1 if rootrel else 0
     for sp, o in zip(paths, res):
         for lvl, r, x in (((lvl0, o["r"], o["x"]),) + ((("wire", o["p"], o["px"]),) if "p" in o else ())) if safety else ():
             leaked = sorted(set(x["sent"]) & outside)
@@ -398,7 +402,7 @@ def _judge(paths, res, ents, outside, mx, when="", safety=True, complete=True, l
         if u[0] != "ok" or not plain or not complete:
             continue
         for e in plain:
-            how = _denotes(u[1], e[1][len("root/"):])
+            how = _denotes(u[1], e[1][cut:])
             if how is None:
                 continue
             want = ["20", "file", e[2]]
@@ -868,6 +872,268 @@ class Wear(Sequence):
 
 
 # ----------------------------------------------------------------------------------------------
+# SEVERAL handlers with different document roots in ONE process
+# ----------------------------------------------------------------------------------------------
+OTHER_ROOTS = ["out", "out", "out", "root-evil", "root-evil", "out/sub", ""]
+CROSS_NAMES = ["peer", "shared", "mirror", "to b", "é", "index.gmi", "index.gemini", "a", "sub", "b", "q3.gmi", "日本"]
+
+
+def _as_root(tree, rootrel: str):
+    """the entries below the directory `rootrel` of the tree, renamed as if that directory were called `root` (only the
+    PATHS matter: the result is used to aim request spellings at what a handler on that directory can be asked for)"""
+    if rootrel == "root":
+        return tree
+    out = [["d", "root"]]
+    for e in tree:
+        if not rootrel:
+            out.append([e[0], "root/" + e[1]] + list(e[2:]))
+        elif e[1].startswith(rootrel + "/"):
+            out.append([e[0], "root" + e[1][len(rootrel):]] + list(e[2:]))
+    return out
+
+
+def _below(path: str, rootrel: str) -> bool:
+    return not rootrel or path == rootrel or path.startswith(rootrel + "/")
+
+
+def _rel_to(path: str, rootrel: str) -> str:
+    return path if not rootrel else path[len(rootrel) + 1:]
+
+
+def run_neighbours(case):
+    """several static handlers with their own document roots - directories of ONE tree - in one process, asked in turn"""
+    import types
+
+    from nauyaca.protocol.constants import DEFAULT_MAX_FILE_SIZE
+    from nauyaca.server.handler import StaticFileHandler
+
+    hds = case["handlers"]
+    with T.Built(case["tree"]) as built:
+        views = [T.View(built, hd["root"]) for hd in hds]
+        if case.get("via") == "config":
+            # the way the server makes them: one [[locations]] table each -> ServerConfig.get_location_router
+            from nauyaca.server.config import ServerConfig
+            from nauyaca.server.location import HandlerType, LocationConfig
+
+            locs = []
+            for k, (hd, v) in enumerate(zip(hds, views)):
+                kw = {"default_indices": list(hd["indices"])} if hd.get("indices") else {}
+                locs.append(LocationConfig(prefix="/~h%d/" % k, handler_type=HandlerType.STATIC, document_root=v.root,
+                                           enable_directory_listing=bool(hd["listing"]), max_file_size=hd.get("max"), **kw))
+            router = ServerConfig(document_root=built.root, locations=locs).get_location_router(enable_directory_listing=False)
+            hs = [types.SimpleNamespace(handle=r.handler) for r in router.routes]
+            maxes = [int(getattr(getattr(r.handler, "__self__", None), "max_file_size", 0) or hd.get("max") or DEFAULT_MAX_FILE_SIZE)
+                     for r, hd in zip(router.routes, hds)]
+        else:
+            hs = [StaticFileHandler(v.root, default_indices=hd.get("indices"), enable_directory_listing=bool(hd["listing"]), max_file_size=hd.get("max"))
+                  for hd, v in zip(hds, views)]
+            maxes = [int(h.max_file_size) for h in hs]
+        ok = built.ents == [list(e) for e in case["tree"]] and all(os.path.isdir(v.root) and not os.path.islink(v.root) for v in views)
+        outside = [v.outside_ids() for v in views]
+        steps = []
+        for i, (k, sp) in enumerate(case["steps"]):
+            o = _ask(hs[k], views[k], [sp], 1 if i % 4 == 0 else 0)[0]
+            o["h"] = k
+            steps.append(o)
+        return {"steps": steps, "outside": outside, "max": maxes, "ents": [list(e) for e in built.ents], "ents_ok": ok}
+
+
+class Neighbours(Family):
+    """SEVERAL `StaticFileHandler` objects in one process - the [[locations]] of one server, or several servers - whose
+    document roots are different directories of one tree: next to each other (`root`, `out`, `root-evil`), one inside
+    the other (`out` / `out/sub`, `root` / a directory of it), one the directory ABOVE the others.  Symlinks lead from
+    each root to files and directories of the others; the handlers are asked in turn - what a neighbour may serve from
+    its root (and has just served) is, for this handler, a place outside ITS root.  Every answer is judged against the
+    root of the handler that gave it; the answers of the handler on `root` are also compared with `Fs.handle`."""
+    name = "neighbours"
+    quick_n = 480
+    thorough_n = 9000
+
+    setup = Static.setup
+
+    def gen(self, rng: random.Random, n: int):
+        for i in range(n):
+            tree = [list(e) for e in T.gen_tree(rng, max_nodes=13 if i % 3 else 19, names=NAMES if rng.random() < 0.3 else T.NAMES)]
+            fid = max(e[2] for e in tree if e[0] == "f") + 1
+            have = {e[1] for e in tree}
+
+            def add(ent):
+                if ent[1] not in have:
+                    tree.append(ent)
+                    have.add(ent[1])
+                    return True
+                return False
+
+            top = [e[1] for e in tree if e[0] == "d" and e[1].startswith("root/") and e[1].count("/") == 1 and T._encodable(e[1]) and len(e[1]) < 60]
+            roots = ["root"]
+            for _ in range(rng.choice([1, 1, 1, 2])):
+                roots.append(rng.choice(OTHER_ROOTS + top[:2]))
+            if rng.random() < 0.1:
+                roots.append("root")             # a second handler on the same root, with other settings
+            # something of its own in every other root
+            for R in dict.fromkeys(roots[1:]):
+                if R == "root":
+                    continue
+                pre = R + "/" if R else ""
+                for name in rng.sample(["doc.gmi", "notes.txt", "b", "x y", "é.gmi", "index.gmi", "f.gmi"], rng.randint(1, 3)):
+                    if add(["f", pre + name, fid, True, 0]):
+                        fid += 1
+                if rng.random() < 0.6:
+                    d = pre + rng.choice(["reports", "sub", "a", "members"])
+                    add(["d", d])
+                    for name in rng.sample(["q3.gmi", "index.gmi", "b", "t.txt"], rng.randint(1, 2)):
+                        if add(["f", d + "/" + name, fid, True, 0]):
+                            fid += 1
+            # links from every root to files / directories of the others
+            cross = []
+            for k, Rk in enumerate(roots):
+                for j, Rj in enumerate(roots):
+                    if j == k or Rj == Rk:
+                        continue
+                    for _ in range(rng.choice([0, 1, 1, 2])):
+                        cands = [e for e in tree if e[0] in ("f", "d") and _below(e[1], Rj) and T._encodable(e[1])]
+                        away = [e for e in cands if not _below(e[1], Rk)]          # for the handler k: outside
+                        if away and rng.random() < 0.85:
+                            cands = away
+                        if not cands:
+                            continue
+                        tgt = rng.choice(cands)
+                        if tgt[0] == "f" and rng.random() < 0.25:
+                            tgt = ["d", tgt[1].rsplit("/", 1)[0]] if "/" in tgt[1] else tgt      # the directory that holds it
+                        homes = [e[1] for e in tree if e[0] == "d" and _below(e[1], Rk) and e[1].count("/") < 3 and T._encodable(e[1])]
+                        home = Rk if rng.random() < 0.6 or not homes else rng.choice(homes)
+                        if not _below(home, Rk) or (home and home not in have and home != Rk):
+                            home = Rk
+                        name = rng.choice(CROSS_NAMES)
+                        link = (home + "/" if home else "") + name
+                        if link in have:
+                            continue
+                        depth = home.count("/") + 1 if home else 0
+                        text = ("/" + tgt[1]) if rng.random() < 0.35 or depth == 0 else "../" * depth + tgt[1]
+                        add(["l", link, text])
+                        cross.append([k, link, j, tgt[0], tgt[1]])
+            tree = T.settle(T.normalise(tree))
+            have = {e[1]: e for e in tree}
+            # handlers whose root did not come into being are dropped (a name the file system refused)
+            keep = [k for k, R in enumerate(roots) if R == "" or (R in have and have[R][0] == "d")]
+            if len(keep) < 2:
+                continue
+            renum = {k: m for m, k in enumerate(keep)}
+            roots = [roots[k] for k in keep]
+            cross = [[renum[c[0]], c[1], renum[c[2]]] + c[3:] for c in cross if c[0] in renum and c[2] in renum and c[1] in have and c[4] in have]
+            general = {k: [] for k in range(len(roots))}
+            aimed = {k: [] for k in range(len(roots))}
+            for k, R in enumerate(roots):
+                view = _as_root(tree, R)
+                general[k] = _requests(rng, view, 4, own_p=0.5) + _link_requests(rng, view, k=2)
+            for k, link, j, kind, tgt in cross:
+                lit, enc = T.own_spellings(_rel_to(link, roots[k]))
+                kids = [e[1].rsplit("/", 1)[-1] for e in tree if e[1].startswith(tgt + "/") and e[1].count("/") == tgt.count("/") + 1 and T._encodable(e[1])] if kind == "d" else []
+                aimed[k] += [lit, lit + "/"] + ([lit + "/" + rng.choice(kids)] if kids else []) + ([enc] if enc and rng.random() < 0.2 else [])
+                # what the neighbour is legitimately asked for: the target by its own path, what lies next to it, its directory
+                own = _rel_to(tgt, roots[j]) if tgt != roots[j] else ""
+                olit = T.own_spellings(own)[0]
+                if kind == "f":
+                    aimed[j] += [olit] + ([olit.rsplit("/", 1)[0] + "/"] if rng.random() < 0.3 else [])
+                else:
+                    aimed[j] += [olit.rstrip("/") + "/"] + [olit.rstrip("/") + "/" + x for x in rng.sample(kids, min(len(kids), 2))]
+            for k in aimed:
+                aimed[k] = [a for a in dict.fromkeys(aimed[k]) if len(a.encode("utf-8")) <= 1012]
+            steps = [[k, sp] for k in general for sp in general[k] + aimed[k]]
+            rng.shuffle(steps)
+            for _ in range(rng.choice([1, 1, 2])):
+                again = [[k, sp] for k in aimed for sp in aimed[k]] + [[k, sp] for k in general for sp in rng.sample(general[k], min(2, len(general[k])))]
+                rng.shuffle(again)
+                steps += again
+            handlers = [{"root": R, "listing": int(rng.random() < 0.6), "indices": None if rng.random() < 0.88 else rng.choice([["index.gmi"], ["f.gmi", "index.gmi"]]),
+                         "max": None if rng.random() < 0.85 else 300} for R in roots]
+            yield {"tree": tree, "via": "config" if rng.random() < 0.3 else "objects", "handlers": handlers, "steps": steps[:70],
+                   "cross": [f"{c[1]} (root {c[0]}) -> {c[4]} (root {c[2]})" for c in cross]}
+
+    def impl(self, case):
+        return run_neighbours(case)
+
+    def model(self, case):
+        hd = case["handlers"][0]
+        mine = [sp for k, sp in case["steps"] if k == 0]
+        if hd["root"] != "root" or not mine:
+            return None
+        idx = hd.get("indices") or self.def_idx
+        f = ["seq", str(hd["listing"]), "/".join(T.enc_name(i) for i in idx), str(hd.get("max") or self.def_max),
+             "T", T.enc_tree(case["tree"]), T.enc_metas(case["tree"])]
+        for sp in mine:
+            u = T.url_path(sp)
+            f.append(T.enc_name(u[1]) if u[0] == "ok" else "!")
+        return "\t".join(f)
+
+    def expect(self, case, out):
+        assert out.startswith("ok "), out
+        outs = out[3:].split(" | ")
+        mine = [sp for k, sp in case["steps"] if k == 0]
+        assert len(outs) == len(mine), out[:200]
+        res = []
+        for sp, o in zip(mine, outs):
+            u = T.url_path(sp)
+            res.append(["reject"] if u[0] != "ok" else [u[1]] + T.parse_static_out(o))
+        return res
+
+    def same(self, expected, obs):
+        got = [o for o in obs["steps"] if o["h"] == 0]
+        if not obs["ents_ok"] or len(expected) != len(got):
+            return False
+        for e, o in zip(expected, got):
+            if o["r"] != e or ("p" in o and o["p"] != _wire_of(e)):
+                return False
+        return True
+
+    @staticmethod
+    def _on(R):
+        return "<base>/" + R if R else "<base>"
+
+    def oracle(self, case, obs):
+        if not obs["ents_ok"]:
+            return None                  # the tree is not the one described (a harness matter)
+        hds = case["handlers"]
+        for part in ({"complete": False}, {"safety": False}):
+            for i, ((k, sp), o) in enumerate(zip(case["steps"], obs["steps"])):
+                R = hds[k]["root"]
+                v = _judge([sp], [o], obs["ents"], obs["outside"][k], obs["max"][k], rootrel=R, **part)
+                if v is None:
+                    continue
+                served = [f"the one on {self._on(hds[k2]['root'])} served {_short(sp2)}" for (k2, sp2), o2 in zip(case["steps"][:i], obs["steps"][:i])
+                          if k2 != k and o2["x"]["st"] == 20]
+                when = (f"static handlers on {' + '.join(self._on(h['root']) for h in hds)} in one process ({'[[locations]]' if case.get('via') == 'config' else 'objects'})"
+                        + (f"; after {served[-1]}" if served else "") + f" - request {i + 1}, to the one on {self._on(R)}, ")
+                return (v[0], when + v[1])
+        return None
+
+    def key(self, case, obs):
+        roots = "+".join(h["root"] or "." for h in case["handlers"])
+        # what became of the requests for the links that lead into a neighbour's root
+        links = {(c.split(" (root ")[0], int(c.split(" (root ")[1].split(")")[0])) for c in case.get("cross", [])}
+        ks = set()
+        for (k, sp), o in zip(case["steps"], obs["steps"]):
+            R = case["handlers"][k]["root"]
+            if any(k == lk and (sp.rstrip("/") == "/" + _rel_to(lp, R)) for lp, lk in links):
+                ks.add(_outcome_class(o))
+        return f"{case.get('via', 'objects')[0]}|{roots}|" + ",".join(sorted(ks))[:60]
+
+    def shrink(self, case, bad):
+        """fewer requests"""
+        cur = case
+        try:
+            for j in range(len(cur["steps"]) - 1, -1, -1):
+                if len(cur["steps"]) <= 1:
+                    break
+                c = dict(cur, steps=cur["steps"][:j] + cur["steps"][j + 1:])
+                if bad(c):
+                    cur = c
+        except Exception:  # noqa: BLE001
+            pass
+        return cur
+
+
+# ----------------------------------------------------------------------------------------------
 # static serving as the SERVER is wired: `nauyaca serve` -> configuration -> locations / router -> protocol
 # ----------------------------------------------------------------------------------------------
 LINK_NAMES = ["current", "cur", "live", "www"]
@@ -1232,4 +1498,4 @@ class Realpath(Family):
         return "skip" if obs["r"] is None else obs["r"][1].split("@")[0][:4] + (":links" if any(e[0] == "l" for e in case["tree"]) else "")
 
 
-FAMILIES = [Static(), Sequence(), Wear(), Served(), CanonFam(), Realpath()]
+FAMILIES = [Static(), Sequence(), Wear(), Neighbours(), Served(), CanonFam(), Realpath()]
